@@ -369,16 +369,27 @@ func (w *World) ingressDocs() []Doc {
 			b := kb(*g.Default)
 			k.Spec.DefaultBackend = &b
 		}
-		for _, r := range g.Rules {
+		for ri, r := range g.Rules {
+			host := "example.com"
+			if g.HostStyle > 0 {
+				host = ingHosts[(g.HostStyle+ri)%len(ingHosts)]
+			}
 			if len(r) == 0 {
 				// a rule with a host only: its traffic goes to the default backend
-				k.Spec.Rules = append(k.Spec.Rules, netv1.IngressRule{Host: "only-host.example.com"})
+				if g.HostStyle == 0 || host == "" {
+					host = "only-host.example.com"
+				}
+				k.Spec.Rules = append(k.Spec.Rules, netv1.IngressRule{Host: host})
 				continue
 			}
-			rule := netv1.IngressRule{Host: "example.com", IngressRuleValue: netv1.IngressRuleValue{HTTP: &netv1.HTTPIngressRuleValue{}}}
-			pt := netv1.PathTypePrefix
-			for _, b := range r {
-				rule.HTTP.Paths = append(rule.HTTP.Paths, netv1.HTTPIngressPath{Path: "/", PathType: &pt, Backend: kb(b)})
+			rule := netv1.IngressRule{Host: host, IngressRuleValue: netv1.IngressRuleValue{HTTP: &netv1.HTTPIngressRuleValue{}}}
+			for bi, b := range r {
+				pt, path := netv1.PathTypePrefix, "/"
+				if g.HostStyle > 0 {
+					pt = ingPathTypes[(g.HostStyle+bi)%len(ingPathTypes)]
+					path = ingPaths[(g.HostStyle+ri+bi)%len(ingPaths)]
+				}
+				rule.HTTP.Paths = append(rule.HTTP.Paths, netv1.HTTPIngressPath{Path: path, PathType: &pt, Backend: kb(b)})
 			}
 			k.Spec.Rules = append(k.Spec.Rules, rule)
 		}
@@ -401,6 +412,11 @@ func (w *World) ingressDocs() []Doc {
 	}
 	return docs
 }
+
+// hosts, paths and path types an API server accepts ("" = the rule applies to every host; wildcard hosts; an IDN)
+var ingHosts = []string{"example.com", "", "*.example.com", "api.v2.example.com", "*.apps.cluster.local", "xn--bcher-kva.example", "a.b"}
+var ingPaths = []string{"/", "/api", "/api/v1/", "/static/img", "/healthz"}
+var ingPathTypes = []netv1.PathType{netv1.PathTypePrefix, netv1.PathTypeExact, netv1.PathTypeImplementationSpecific}
 
 func (w *World) YAML() string {
 	var parts []string
